@@ -177,10 +177,16 @@ func (c *MemoryCache[MetadataT]) cacheInternal(key CacheKey, data io.Reader, exp
 	}
 
 	c.mu.Lock()
+	oldEntry, overwritten := c.entries[key]
 	c.entries[key] = internalEntry
 	c.mu.Unlock()
 
-	incrementCacheEntries()
+	if overwritten {
+		// The key was already cached: the old entry is replaced, so only its size goes away.
+		decrementCacheSize(&c.byteSize, oldEntry.meta.Size)
+	} else {
+		incrementCacheEntries()
+	}
 	addCacheSize(&c.byteSize, int64(count))
 
 	return &Entry[MetadataT]{
